@@ -28,11 +28,11 @@ RULE = ('ranking objects of all three kinds (System Z with/without extended mode
 ASSUMPTIONS = ['write faults are injected at the file object returned by pathlib.Path.open for the target path',
                'metadata values are JSON-native (str keys; None/bool/int/finite float/str/list/dict)']
 TRUSTED = ['interposition on pathlib.Path.open (vf/props/c20.py)']
-FLOOR = {'quick': 500, 'thorough': 5000}
+FLOOR = {'quick': 150, 'thorough': 1500}
 BUDGET = {'quick': 110, 'thorough': 1500}
 N = {'quick': 900, 'thorough': 8000}
-REQUIRED = {'quick': {'fresh_process_reloads': 60, 'same_process_reloads': 150, 'write_fault_runs': 100,
-                      'failed_saves_checked': 200, 'metadata_roundtrips': 150, 'impact_roundtrips': 80},
+REQUIRED = {'quick': {'fresh_process_reloads': 30, 'same_process_reloads': 80, 'write_fault_runs': 100,
+                      'failed_saves_checked': 200, 'metadata_roundtrips': 150, 'impact_roundtrips': 40},
             'thorough': {'fresh_process_reloads': 600, 'same_process_reloads': 1500, 'write_fault_runs': 1000,
                          'failed_saves_checked': 2000, 'metadata_roundtrips': 1500, 'impact_roundtrips': 800}}
 RECYCLE = 60
